@@ -98,6 +98,9 @@ fn quantile_case(ctx: &mut Ctx, rng: &mut Rng, x: &Series, label: &str, call: &d
                     let scale = s[0].abs().max(s[n - 1].abs());
                     let tol = 64.0 * F64_EPS * scale * (n as f64).max(4.0);
                     if cands.iter().any(|c| feq(*c, v, tol)) {
+                        if n > 3 {
+                            ctx.sample(|| format!("{} = {v} (sorted valid elements {s:?}, candidates {cands:?})", d()));
+                        }
                         ctx.count(if near { "quantile_ok_integer_index" } else { "quantile_ok" });
                         ctx.distinct(&format!("q|{label}|{n}|{a}/{b}|{mi}"));
                     } else {
